@@ -1043,6 +1043,13 @@ static string opMtHist(const vector<string>& steps)
 			else if (op == "assign") { ent(1) = ent(2); }
 			else if (op == "selfassign") { MT& a = ent(1); a = *&a; }
 			else if (op == "kill") { pool[ix(1)].reset(); }
+			else if (op == "burst") {
+				// n simultaneous copies of one diagram, destroyed again (the reference counters must hold that many)
+				size_t n = toN(f.at(2));
+				vector<MT> tmp;
+				tmp.reserve(n);
+				for (size_t c = 0; c < n; ++c) tmp.push_back(ent(1));
+			}
 			else if (op == "ap1") { MtF1& fn = fn1(static_cast<int>(toN(f.at(2)))); pool.emplace_back(new MT(fn(ent(1)))); }
 			else if (op == "ap2") { MtF2& fn = fn2(static_cast<int>(toN(f.at(3)))); pool.emplace_back(new MT(fn(ent(1), ent(2)))); }
 			else if (op == "ap2to") { MtF2& fn = fn2(static_cast<int>(toN(f.at(3)))); ent(1) = fn(ent(1), ent(2)); }
@@ -1793,8 +1800,8 @@ static string opLts(const vector<string>& a)
 {
 	size_t n = toN(a.at(0));
 	ExplicitLTS lts(n);
-	// optional 7th argument `st=<k>`: the system is built in two stages – k edges, init(), the remaining edges (labels and
-	// states that exist already), init() again – as a client does that extends a system between two simulation computations
+	// optional 7th argument `st=<k>`: the system is built in two stages – k edges, init(), the remaining edges (possibly with
+	// new labels and states), init() again – as a client does that extends a system between two simulation computations
 	size_t stage = static_cast<size_t>(-1);
 	if (a.size() > 6 && a.at(6).compare(0, 3, "st=") == 0) stage = toN(a.at(6).substr(3));
 	size_t cnt = 0;
